@@ -239,7 +239,7 @@ CHECKS.update({
                   "against a stand-in driver, captured (statement, parameters) judged by Trace_FimCypher",
         text="No server needed: the real Neo4jPropertyGraph / Neo4jGraphImporter / Neo4jCBMGraph / Neo4jASM / Neo4jADMGraph are "
              "constructed over a recording driver that answers with canned results (3 personas to drive both sides of the result "
-             "handling); 61 operations x 3 personas x 3 value sets (benign; quotes, backslashes, braces, dollars; newlines, keywords, "
+             "handling); ~150 operation instances (every operation, swept over class labels, relations and special property names) x 3 personas x 3 value sets (benign; quotes, backslashes, braces, dollars; newlines, keywords, "
              "trailing backslash). TLC decides for every captured statement: literals terminated, brackets balanced, no template "
              "left-over, no comment opener, every $parameter supplied, every referenced variable bound; and that the token shape "
              "of every statement of an operation instance is the same for all value sets (values reach the driver as parameters "
